@@ -192,7 +192,7 @@ theorem banner_roundTrip_of_version (major minor nv : Nat)
     (raw : Bytes) (comment : Option Bytes) (ht : bannerTextOk raw comment = true)
     (hsw : parseSoftwareVersion raw = .ok ⟨"SshSoftwareVersionUnparsed", some raw⟩)
     (b : Bytes) (hc : composeBanner ⟨major, minor, ⟨"SshSoftwareVersionUnparsed", some raw⟩, comment⟩ = .ok b)
-    (s : Bytes) (hs : s.head? ≠ some 0x0a) :
+    (s : Bytes) :
     b = Spec.Ssh.identification major minor raw comment ∧ b.length ≤ 255 ∧
     parseBanner (b ++ s) = .ok (⟨major, minor, ⟨"SshSoftwareVersionUnparsed", some raw⟩, comment⟩, b.length) := by
   rw [banner_compose_spec] at hc
@@ -258,10 +258,8 @@ theorem banner_roundTrip_of_version (major minor nv : Nat)
         0x53 :: 0x53 :: 0x48 :: 0x2d :: (digitsOfNat major ++ [0x2e] ++ digitsOfNat minor ++
           0x2d :: (L ++ 0x0a :: s)) := by simp
     rw [hW]
-    have f5 : ∀ k, k = 5 + nv → (0x53 :: 0x53 :: 0x48 :: 0x2d :: (digitsOfNat major ++ [0x2e] ++ digitsOfNat minor ++
-          0x2d :: (L ++ 0x0a :: s)) : Bytes).drop k = L ++ 0x0a :: s := by
-      intro k hk
-      subst hk
+    have f5 : (0x53 :: 0x53 :: 0x48 :: 0x2d :: (digitsOfNat major ++ [0x2e] ++ digitsOfNat minor ++
+          0x2d :: (L ++ 0x0a :: s)) : Bytes).drop (5 + nv) = L ++ 0x0a :: s := by
       have : 5 + nv = nv + 1 + 4 := by omega
       rw [this]
       simp only [List.drop_succ_cons]
@@ -278,27 +276,20 @@ theorem banner_roundTrip_of_version (major minor nv : Nat)
     have f6 : (L ++ 0x0a :: s).takeWhile (fun x => x != 0x0a) = L := by
       rw [takeWhile_append_all _ _ _ hLnl]
       simp [List.takeWhile]
-    have f10 : ((L ++ 0x0a :: s).drop L.length).takeWhile (fun x => x == 0x0a) = [0x0a] := by
-      rw [List.drop_left]
-      cases s with
-      | nil => simp [List.takeWhile]
-      | cons y ys =>
-        have : (y == 0x0a) = false := by simpa using hs
-        simp [List.takeWhile, this]
-    unfold parseBanner
-    have g0 : ¬ ((0x53 :: 0x53 :: 0x48 :: 0x2d :: (digitsOfNat major ++ [0x2e] ++ digitsOfNat minor ++
-          0x2d :: (L ++ 0x0a :: s)) : Bytes).length < 3) := by simp only [List.length_cons]; omega
-    simp only [g0, if_false, List.take_succ_cons, List.take_zero, ssh, bne_self_eq_false, Bool.false_eq_true,
-      List.drop_succ_cons, List.drop_zero, expectByte, beq_self_eq_true, if_true, bind, Except.bind, hver]
-    rw [f4]
-    simp only [beq_self_eq_true, if_true]
-    rw [f5 _ rfl, f6, f10, hline]
-    have g7 : (L.length == (L ++ 0x0a :: s).length) = false := by
-      simp only [List.length_append, List.length_cons]
-      apply beq_false_of_ne
-      omega
-    have g11 : ¬ (5 + nv + L.length + 1 > 255) := by omega
-    simp only [g7, Bool.false_eq_true, if_false, hLasc, Bool.not_true, hcm3, pure, Except.pure, List.length_singleton, g11]
+    have hcr : crMissing L = false := by
+      subst hL
+      have := (splitOnSpace_cr (raw ++ cm)).1
+      unfold crMissing
+      rw [this]
+      decide
+    refine parseBanner_of_parts (major := major) (minor := minor) (nv := nv) (by simp only [List.length_cons]; omega)
+      rfl (by simp [expectByte]) (by simpa using hver _) (by rw [f4]; simp [expectByte]) ?_ ?_ ?_
+    · rw [f5, f6]; simp only [List.length_append, List.length_cons]; omega
+    · rw [f5, f6]; exact hLasc
+    · rw [f5, f6]
+      have g11 : ¬ (5 + nv + L.length + 1 > 255) := by omega
+      simp only [bannerFinish, hline, bind, Except.bind, composedLength, hcr, Bool.false_eq_true, if_false, g11, hcm3,
+        pure, Except.pure]
   · simp at hc
 
 end Cp.Ssh
